@@ -812,6 +812,7 @@ func evalStack(sstack []any) []any {
 			sstack[i] = Nothing
 			if ls, ok := left.(string); ok {
 				if rs, _ := right.(string); 0 < len(rs) {
+					rs = "(?:" + rs + ")" // the whole pattern is anchored, not its first and last alternative
 					if rs[0] != '^' {
 						rs = "^" + rs
 					}
